@@ -42,12 +42,12 @@ def cases(draw, tier="quick"):
     max_pto = 3
     if clause == "a":
         kinds = draw(st.sampled_from([("F2", "FL", "g1"), ("F2", "FL", "g1"), ("F3", "gL", "g4")]))
-        cfg = draw(configs.config(processes=("NC",), kinds=kinds, max_pto=max_pto, targets=("proton", "ZA", "isoscalar")))
+        cfg = draw(configs.config(processes=("NC",), kinds=kinds, max_pto=max_pto, targets=("proton", "ZA", "isoscalar"), tmcs=(0, 0, 0, 1, 3)))
         if draw(st.integers(0, 4)) > 0:  # neutrino beams are identically zero without Z: keep them rare
             cfg["obs"]["ProjectileDIS"] = draw(st.sampled_from(["electron", "positron"]))
         cfg["mz"] = draw(st.sampled_from(["inf", "inf", "1e150"]))
     elif clause == "b":
-        cfg = draw(configs.config(processes=("NC", "NC", "NC", "EM"), max_pto=max_pto, targets=("proton", "ZA")))
+        cfg = draw(configs.config(processes=("NC", "NC", "NC", "EM"), max_pto=max_pto, targets=("proton", "ZA"), tmcs=(0, 0, 0, 1, 2)))
         cfg["obs"]["ProjectileDIS"] = "positron"
         cfg["obs"]["PolarizationDIS"] = round(draw(st.floats(-1.0, 1.0)), 4)
     elif clause == "c":
@@ -71,6 +71,8 @@ def cases(draw, tier="quick"):
             )
         )
     cfg["clause"] = clause
+    if cfg["theory"]["TMC"] and cfg["meta"]["pto"] > 1:
+        cfg["theory"]["PTO"] = cfg["meta"]["pto"] = 1
     return cfg
 
 
@@ -89,6 +91,7 @@ def _flip_rows(t):
 def check_case(case):
     v = Verdict()
     cl = case["clause"]
+    v.label("tmc:on" if case["theory"]["TMC"] else "tmc:off")
     v.label(f"clause:{cl}", f"pto:{case['meta']['pto']}", f"scheme:{case['meta']['scheme']}", f"kind:{case['meta']['kind']}")
     th, ob = case["theory"], case["obs"]
     name = case["meta"]["name"]
